@@ -423,6 +423,38 @@ def check_v2_glue_concrete(chk, ix):
                 arg, got[0], "; expected %r (modulo spaces)" % want if want is not None else " (still contains '@')"))
 
 
+def check_v2_list_form(chk, ix):
+    """T4 (list form): several --tags options are AND-ed, each option as ONE unit - also an option that itself starts with
+    '(' and ends with ')' without being one parenthesised group ('(a) or (b)').  Compared by truth table."""
+    chk.rule("T4", WHAT["T4"])
+    f = ix.func("behave.tag_expression.builder:_parse_tag_expression_v2")
+    cases = [["(@a) or (@b)", "@c"], ["(a or b)", "c"], ["(a)", "(b) or (c)"], ["not (a)", "(b)"], ["(a) and (b)", "(c) or (a)"],
+             ["a or b", "not c"], [" (a) or (b) ", "c"], ["((a) or b)", "c"]]
+    for terms in cases:
+        got = []
+        it = Interp(ix, stubs={"TagExpressionParser.parse": lambda i, s, a, k, n: (got.append(a[-1]), [(s, "val", "EXPR")])[1]},
+                    name="_parse_tag_expression_v2 list form")
+        it.int_sat = 50
+        it.fold_regex = True
+        st = State()
+        st.frames = []
+        outs = it.call_function(st, f, [st.alloc(HObj("list", kind="list", items=list(terms)))], {}, None)
+        chk.absorb(it)
+        chk.instance("T4")
+        if len(got) != 1 or not isinstance(got[0], str) or len(outs) != 1:
+            raise AnalysisError("_parse_tag_expression_v2 not foldable on %r: parser got %r" % (terms, got))
+        want = " and ".join("(" + t.replace("@", "").strip() + ")" for t in terms)
+        try:
+            same = _v2_table(got[0]) == _v2_table(want)
+        except ValueError:
+            same = False
+        if same and "@" not in got[0]:
+            chk.ok("T4", {"options": terms, "text_handed_to_parser": got[0]}, nontrivial_key=("list", repr(terms)))
+        else:
+            _fail(chk, "T4", f, "%r -> %r" % (terms, got[0]), "the options %r reach the v2 parser as %r, which does not mean %r (every option is one "
+                  "operand of the conjunction)" % (terms, got[0], want))
+
+
 def _third_party_keywords():
     import importlib.util
     spec = importlib.util.find_spec("cucumber_tag_expressions")
@@ -668,9 +700,11 @@ def check_v1_end_to_end(chk, ix):
             if sname in ("limit", "padded") and len(formula) > 1:
                 continue
             args = [",".join(render(l.startswith("-"), l.lstrip("-")) for l in g) for g in formula]
-            for form in ("list", "string"):
+            for form in ("list", "string", "list through the builder"):
                 if form == "string" and (sname == "padded" or n % 3):
                     n += 1
+                    continue
+                if form == "list through the builder" and sname not in ("padded", "at"):
                     continue
                 n += 1
                 st = State()
@@ -687,7 +721,10 @@ def check_v1_end_to_end(chk, ix):
                         return [(s2, "val", _me) if k2 == "val" else (s2, k2, v2) for (s2, k2, v2) in i.call_function(s_, init, [a[0]], {}, n_, self_val=_me)]
                     it.stubs["_TagExpressionV1"] = ctor
                     it.stubs["TagExpression"] = ctor
-                    outs = it.call_function(st, pv1, [" ".join(args)], {}, None)
+                    # the string form: groups separated by blanks; the list form: one option per element, handed over as it is
+                    # (an option may contain blanks around its commas)
+                    barg = " ".join(args) if form == "string" else st.alloc(HObj("list", kind="list", items=[a_.replace(",", " , ") if sname == "padded" else a_ for a_ in args]))
+                    outs = it.call_function(st, pv1, [barg], {}, None)
                     it.stubs.pop("_TagExpressionV1", None)
                     it.stubs.pop("TagExpression", None)
                 if len(outs) != 1 or outs[0][1] != "val":
